@@ -304,11 +304,19 @@ pub mod verif
                         {
                             kani::cover!(true, "NeedsRebuild reachable");
                             any_rebuild = true;
-                            assert!(!f.ws[i].present, "[C08] target left in place although it is to be rebuilt over");
                         },
                         FileResolution::Downloaded => assert!(false, "[C20] 'Downloaded' reported with no download urls"),
                     }
                     i += 1;
+                }
+                if any_rebuild
+                {
+                    /*  handle_rule_node now runs the command: it overwrites every
+                        target.  Whatever the resolve phase left in place without a
+                        back-up is gone unless the command rewrites identical bytes. */
+                    let _ = sys.execute_command(crate::system::to_command_script(vec![String::from("x")]));
+                    assert!(fs().nothing_lost(),
+                        "[C08] the rebuild overwrites a target whose content was not backed up and exists nowhere else");
                 }
                 if must_not_run(&pre)
                 {
@@ -566,102 +574,327 @@ pub mod verif
         step_rebuild_phase_m(1);
     }
 
-    crate::step_harness!(step_rebuild_phase_2t, 4, { step_rebuild_phase(2); });
-}
-
-
-#[cfg(kani)]
-pub mod profile5
-{
-    use super::*;
-    use super::verif::*;
-    use crate::symsys::*;
-    use crate::fixture::*;
-    use crate::prestate::{self, Clock, PreD};
-    use crate::ticket::verif::*;
-    use std::cmp::PartialEq;
-    use std::clone::Clone;
-
-    crate::step_harness!(prof_update_match, 4, {
+    #[kani::proof]
+    #[kani::unwind(4)]
+    #[kani::stub(crate::ticket::Ticket::human_readable, crate::ticket::verif::hr_stub)]
+    #[kani::stub(alloc::fmt::format, crate::stubs::format_stub)]
+    #[kani::stub(crate::system::util::get_timestamp, crate::symsys::get_timestamp_stub)]
+    #[kani::stub(<crate::ticket::Ticket as PartialEq>::eq, crate::ticket::verif_eq::ticket_eq_words)]
+    #[kani::stub(alloc::alloc::dealloc, crate::stubs::dealloc_noop)]
+    #[kani::stub(<std::string::String as Clone>::clone, crate::stubs::string_clone_short)]
+    #[kani::stub(crate::history::RuleHistory::insert, crate::history::verif_insert_model::insert_model)]
+    fn exp_rebuild_min_1t()
+    {
+        use crate::history::verif_insert_model as im;
         let mut raw = any_raw();
         let pre = prestate::decode(&mut raw, 1, Clock::Distinct, false);
         install(&pre);
+        unsafe
+        {
+            im::EXPECT_SOURCE_BYTE = 1;
+            im::EXPECT_LEN = 1;
+            im::EXPECT_CONTENT = pre.out;
+            im::HAS_ENTRY = pre.has_history;
+            im::ENTRY_CONTENT = pre.remembered;
+        }
+        let h = history_of(&pre);
+        let blob = blob_of(&pre);
+        let mut sys = SymSystem {};
+        let r = rebuild_node(&mut sys, h, sources_ticket(), vec![String::from("x")], blob);
+        assert!(fs().n_exec == 1, "[C02][C20] rebuilding did not run the command exactly once");
+        std::mem::forget(r);
+    }
+
+    crate::step_harness!(step_rebuild_phase_2t, 4, { step_rebuild_phase(2); });
+
+    /*  STEP: work::clean_targets from any pre-state under I1/I3. */
+    fn step_clean(ntargets : usize)
+    {
+        let mut raw = any_raw();
+        let pre = prestate::decode(&mut raw, ntargets, Clock::Distinct, false);
+        install(&pre);
+        let before = [fs().ws[0], fs().ws[1]];
+        let other_before = fs().ws[2];
+        let mut sys = SymSystem {};
+        let mut cache = SysCache::new(SymSystem {}, "#");
+        let r = clean_targets(blob_of(&pre), &mut sys, &mut cache);
+        assert_monitors(other_before);
+        let f = fs();
+        assert!(f.n_exec == 0, "[C10][C02] clean ran a command");
+        match r
+        {
+            Ok(()) =>
+            {
+                let mut i = 0;
+                while i < ntargets
+                {
+                    assert!(!f.ws[i].present, "[C10] a target file still exists after clean");
+                    if before[i].present
+                    {
+                        kani::cover!(true, "clean moved a target");
+                        let c = before[i].content as usize;
+                        assert!(f.cache[c].present && f.cache[c].content == before[i].content,
+                            "[C10][C08] a cleaned target's content is not in the cache under its hash");
+                    }
+                    i += 1;
+                }
+            },
+            Err(e) =>
+            {
+                assert!(false, "[C10][C04] clean failed although nothing is wrong with cache or targets");
+                std::mem::forget(e);
+            },
+        }
+    }
+
+    crate::step_harness!(step_clean_1t, 4, { step_clean(1); });
+    crate::step_harness!(step_clean_2t, 4, { step_clean(2); });
+
+    /*  C10: clean, then the resolve phase of the next build (the file-state
+        table is NOT rewritten by clean, so the build starts from the stale
+        entries).  Pre-state: targets up to date (content = remembered = what
+        the command produces), history has the entry.  Afterwards every target
+        is back, byte-identical, with its executable bit, and nothing asks for a
+        rebuild, provided the targets' contents are pairwise different. */
+    fn clean_then_build(ntargets : usize)
+    {
+        let mut raw = any_raw();
+        let pre = prestate::decode(&mut raw, ntargets, Clock::Distinct, true);
+        kani::assume(pre.has_history);
+        let mut i = 0;
+        while i < ntargets
+        {
+            kani::assume(pre.ws[i].present && pre.ws[i].content == pre.remembered[i]);
+            i += 1;
+        }
+        if ntargets == 2
+        {
+            kani::assume(pre.remembered[0] != pre.remembered[1]);
+        }
+        install(&pre);
+        let before = [fs().ws[0], fs().ws[1]];
+        let other_before = fs().ws[2];
+        let mut sys = SymSystem {};
+        let mut cache = SysCache::new(SymSystem {}, "#");
+        let rc = clean_targets(blob_of(&pre), &mut sys, &mut cache);
+        assert!(rc.is_ok(), "[C10] clean failed on an up-to-date workspace");
+        std::mem::forget(rc);
+        let mut i = 0;
+        while i < ntargets
+        {
+            assert!(!fs().ws[i].present, "[C10] a target file still exists after clean");
+            i += 1;
+        }
+        let h = history_of(&pre);
+        let blob = blob_of(&pre);
+        let dl = Some(DownloaderCache::new(vec![]));
+        let r = resolve_with_cache(&mut sys, &mut cache, &dl, &h, &None, &sources_ticket(), &blob);
+        assert_monitors(other_before);
+        let f = fs();
+        match r
+        {
+            Ok(res) =>
+            {
+                let mut i = 0;
+                while i < ntargets
+                {
+                    match res[i]
+                    {
+                        FileResolution::Recovered => {},
+                        _ => assert!(false, "[C10][C02] a cleaned, up-to-date target is not simply recovered from the cache by the next build"),
+                    }
+                    assert!(f.ws[i].present && f.ws[i].content == before[i].content, "[C10] target not byte-identical after clean + build");
+                    assert!(f.ws[i].exec == before[i].exec, "[C10] executable permission lost across clean + build");
+                    i += 1;
+                }
+                std::mem::forget(res);
+            },
+            Err(e) =>
+            {
+                assert!(false, "[C10] the build after a clean failed");
+                std::mem::forget(e);
+            },
+        }
+        assert!(f.n_exec == 0, "[C10] a command ran");
+        std::mem::forget(h);
+        std::mem::forget(blob);
+    }
+
+    crate::step_harness!(clean_then_build_1t, 4, { clean_then_build(1); });
+    crate::step_harness!(clean_then_build_2t, 4, { clean_then_build(2); });
+
+    /*  I3 for the table entries a step hands back: an entry (h, m) must be
+        truthful for EVERY file (workspace or cache) whose mtime is m. */
+    pub fn assert_table_truthful(blob : &Blob, ntargets : usize)
+    {
+        let f = fs();
+        let mut i = 0;
+        while i < ntargets
+        {
+            let st = crate::blob::verif::blob_state(blob, i);
+            let c = content_of_ticket(&st.ticket);
+            crate::unroll3!(w, {
+                if f.ws[w].present && 1_000_000u64 * (f.ws[w].mtime as u64) == st.timestamp
+                {
+                    assert!(c == Some(f.ws[w].content),
+                        "[C18][C07][C01] file-state table entry handed back pairs an mtime with a hash that is not the hash of the file carrying that mtime");
+                }
+            });
+            crate::unroll5!(k, {
+                if f.cache[k].present && 1_000_000u64 * (f.cache[k].mtime as u64) == st.timestamp
+                {
+                    assert!(c == Some(f.cache[k].content),
+                        "[C18][C07][C01] file-state table entry handed back pairs an mtime with a hash that is not the hash of the (cached) file carrying that mtime");
+                }
+            });
+            i += 1;
+        }
+    }
+
+    /*  The no-rebuild tail of handle_rule_node: Blob::get_current_file_state_vec
+        on the blob that is then returned (and persisted as the file-state table). */
+    fn step_tail(ntargets : usize)
+    {
+        let mut raw = any_raw();
+        let pre = prestate::decode(&mut raw, ntargets, Clock::Distinct, false);
+        install(&pre);
+        let before = [fs().ws[0], fs().ws[1]];
         let mut blob = blob_of(&pre);
         let sys = SymSystem {};
-        let r = blob.update_to_match_system_file_state(&sys);
-        assert!(fs().n_mutations == 0);
-        std::mem::forget(r);
-        std::mem::forget(blob);
-    });
-
-    crate::step_harness!(prof_insert, 4, {
-        let mut raw = any_raw();
-        let pre = prestate::decode(&mut raw, 1, Clock::Distinct, false);
-        let mut h = history_of(&pre);
-        let r = h.insert(sources_ticket(), FileStateVec::from_ticket_vec(vec![ticket_of_content(pre.out[0])]));
-        assert!(r.is_ok() || pre.has_history);
-        std::mem::forget(r);
-        std::mem::forget(h);
-    });
-
-    crate::step_harness!(prof_exec, 4, {
-        let mut raw = any_raw();
-        let pre = prestate::decode(&mut raw, 1, Clock::Distinct, false);
-        install(&pre);
-        let mut sys = SymSystem {};
-        let r = to_command_line_input(sys.execute_command(to_command_script(vec![String::from("x")])));
-        assert!(r.is_ok());
-        std::mem::forget(r);
-    });
-}
-
-#[cfg(kani)]
-pub mod profile6
-{
-    use super::*;
-    use super::verif::*;
-    use crate::symsys::*;
-    use crate::fixture::*;
-    use crate::prestate::{self, Clock, PreD};
-    use crate::ticket::verif::*;
-    use std::cmp::PartialEq;
-    use std::clone::Clone;
-
-    crate::step_harness!(prof_s1, 4, {
-        let mut raw = any_raw();
-        let pre = prestate::decode(&mut raw, 1, Clock::Distinct, false);
-        install(&pre);
-        let mut blob = blob_of(&pre);
-        let mut sys = SymSystem {};
-        let r = to_command_line_input(sys.execute_command(to_command_script(vec![String::from("x")])));
-        let fsv = blob.update_to_match_system_file_state(&sys);
-        assert!(fs().n_exec == 1);
-        std::mem::forget(r);
-        std::mem::forget(fsv);
-        std::mem::forget(blob);
-    });
-
-    crate::step_harness!(prof_s2, 4, {
-        let mut raw = any_raw();
-        let pre = prestate::decode(&mut raw, 1, Clock::Distinct, false);
-        install(&pre);
-        let mut h = history_of(&pre);
-        let mut blob = blob_of(&pre);
-        let mut sys = SymSystem {};
-        let r = to_command_line_input(sys.execute_command(to_command_script(vec![String::from("x")])));
-        match blob.update_to_match_system_file_state(&sys)
+        let r = blob.get_current_file_state_vec(&sys);
+        let f = fs();
+        assert!(f.n_mutations == 0 && f.n_exec == 0, "[C02][C09] hashing the targets modified the file system");
+        let all_present = before[0].present && (ntargets < 2 || before[1].present);
+        match r
         {
-            Ok(fsv) =>
+            Ok(v) =>
             {
-                let ins = h.insert(sources_ticket(), fsv.clone());
-                assert!(fs().n_exec == 1);
-                std::mem::forget(ins);
-                std::mem::forget(fsv);
+                kani::cover!(true, "tail Ok");
+                assert!(all_present, "[C04][C01] a missing target went unnoticed");
+                let mut i = 0;
+                while i < ntargets
+                {
+                    assert!(v.get_ticket(i) == ticket_of_content(before[i].content),
+                        "[C01][C03][C18] hash handed to dependents is not the hash of the target's content");
+                    i += 1;
+                }
+                std::mem::forget(v);
             },
-            Err(e) => { std::mem::forget(e); },
+            Err(GetFileStateError::FileNotFound(p)) =>
+            {
+                kani::cover!(true, "tail missing");
+                assert!(!all_present, "[C04] an existing target was reported missing");
+                let first_missing = if !before[0].present { 0u8 } else { 1u8 };
+                assert!(p.as_bytes().len() == 1 && p.as_bytes()[0] == b'a' + first_missing, "[C04] missing-target error does not name the missing file");
+                std::mem::forget(p);
+            },
+            Err(e) =>
+            {
+                assert!(false, "[C04] hashing targets failed with an unexpected error");
+                std::mem::forget(e);
+            },
         }
-        std::mem::forget(r);
+        assert_table_truthful(&blob, ntargets);
         std::mem::forget(blob);
-        std::mem::forget(h);
-    });
+    }
+
+    crate::step_harness!(step_tail_1t, 4, { step_tail(1); });
+    crate::step_harness!(step_tail_2t, 4, { step_tail(2); });
+
+    /*  The command-execution core of rebuild_node: to_command_script ->
+        execute_command -> to_command_line_input -> update_to_match_system_file_state,
+        called in rebuild_node's order (rebuild_node itself, with its history
+        insert and contradiction mapping, exhausts 45 GB in CBMC's
+        post-processing; see DESIGN). */
+    fn step_rebuild_core(ntargets : usize)
+    {
+        let mut raw = any_raw();
+        let pre = prestate::decode(&mut raw, ntargets, Clock::Distinct, false);
+        install(&pre);
+        let fail_code = raw.flag();
+        let spawn_error = raw.flag();
+        let omit0 = raw.flag();
+        let omit1 = raw.flag();
+        fs().cmd.fail_code = fail_code;
+        fs().cmd.spawn_error = spawn_error;
+        fs().cmd.omit = [omit0, omit1 && ntargets == 2];
+        let before = [fs().ws[0], fs().ws[1]];
+        let other_before = fs().ws[2];
+        let mut blob = blob_of(&pre);
+        let mut sys = SymSystem {};
+        let out = to_command_line_input(sys.execute_command(to_command_script(vec![String::from("x")])));
+        let f = fs();
+        match out
+        {
+            Ok(o) =>
+            {
+                assert!(!fail_code && !spawn_error, "[C04] a failing command was taken for a success");
+                std::mem::forget(o);
+            },
+            Err(WorkError::CommandExecutedButErrored) =>
+            {
+                kani::cover!(true, "non-zero exit");
+                assert!(fail_code && !spawn_error, "[C04] non-zero exit reported for a command that did not exit non-zero");
+                return;
+            },
+            Err(WorkError::CommandFailedToExecute(e)) =>
+            {
+                kani::cover!(true, "spawn error");
+                assert!(spawn_error, "[C04] spawn failure reported for a command that started");
+                std::mem::forget(e);
+                return;
+            },
+            Err(e) =>
+            {
+                assert!(false, "[C04] command outcome mapped to an unexpected error");
+                std::mem::forget(e);
+                return;
+            },
+        }
+        let r = blob.update_to_match_system_file_state(&sys);
+        assert!(f.n_renames == 0 && f.n_creates == 0 && f.n_chmods == 0, "[C08][C09] refreshing file states moved or created files");
+        assert!(f.ws[2] == other_before, "[C09] an out-of-scope file changed");
+        let present0 = f.ws[0].present;
+        let present1 = ntargets < 2 || f.ws[1].present;
+        match r
+        {
+            Ok(v) =>
+            {
+                kani::cover!(true, "rebuild core Ok");
+                assert!(present0 && present1, "[C04] a target the command did not produce went unnoticed");
+                let mut i = 0;
+                while i < ntargets
+                {
+                    assert!(v.get_ticket(i) == ticket_of_content(f.ws[i].content),
+                        "[C01][C03][C18] hash recorded after the command ran is not the hash of the target's content");
+                    let st = crate::blob::verif::blob_state(&blob, i);
+                    assert!(st.executable == f.ws[i].exec, "[C10] file-state table entry does not record the executable bit");
+                    assert!(st.timestamp == 1_000_000u64 * (f.ws[i].mtime as u64), "[C18] file-state table entry does not record the file's mtime");
+                    i += 1;
+                }
+                assert_table_truthful(&blob, ntargets);
+                std::mem::forget(v);
+            },
+            Err(GetCurrentFileInfoError::TargetFileNotFound(p, e)) =>
+            {
+                kani::cover!(true, "target not generated");
+                assert!(!(present0 && present1), "[C04] an existing target reported as not generated");
+                let first_missing = if !present0 { 0u8 } else { 1u8 };
+                assert!(p.as_bytes().len() == 1 && p.as_bytes()[0] == b'a' + first_missing, "[C04] 'target not generated' does not name the first missing target");
+                std::mem::forget(p);
+                std::mem::forget(e);
+            },
+            Err(e) =>
+            {
+                assert!(false, "[C04] refreshing file states failed with an unexpected error");
+                std::mem::forget(e);
+            },
+        }
+        std::mem::forget(blob);
+    }
+
+    crate::step_harness!(step_rebuild_core_1t, 4, { step_rebuild_core(1); });
+    crate::step_harness!(step_rebuild_core_2t, 4, { step_rebuild_core(2); });
 }
+
+
